@@ -283,6 +283,47 @@ func genC13Purge(g *Gen) error {
 		}
 		g.StrList(f[2], s)
 	}
+	// ---- the purge over the indexes of one policy ------------------------------------------------
+	pol, pfd, err := stmts("engine/index/tsi/index_builder.go", "DropSeriesOfPolicy")
+	if err != nil {
+		return err
+	}
+	g.StrList("steps_dropSeriesOfPolicy", pol)
+	// the parts of the shared deleted-tsid index are labelled before any index is walked, every index is
+	// walked in one loop, an error of any walk returns before the labelled parts are removed
+	label, loop, guard, forget := -1, -1, -1, -1
+	for i, st := range pfd.Body.List {
+		src := g.Src(st)
+		switch x := st.(type) {
+		case *ast.ExprStmt:
+			if strings.HasSuffix(src, ".tb.SetLabelForDeletePart()") {
+				label = i
+			}
+			if strings.HasSuffix(src, ".tb.RemoveDeletedPart()") {
+				forget = i
+			}
+		case *ast.RangeStmt:
+			if strings.Contains(src, "RemoveItemsByDelTsidsFromParts(") && strings.Contains(src, "errs = append(errs, e)") {
+				loop = i
+			}
+		case *ast.IfStmt:
+			if g.Src(x.Cond) == "len(errs) > 0" {
+				for _, b := range x.Body.List {
+					if _, ok := b.(*ast.ReturnStmt); ok {
+						guard = i
+					}
+				}
+			}
+		}
+	}
+	boolDef("policyPurgeForgetsOnlyWhenAllOk", label >= 0 && label < loop && loop < guard && guard < forget,
+		"the deleted-tsid index of a policy is labelled before its indexes are walked and emptied only after every walk succeeded")
+	es, _, err := stmts("engine/engine_ddl.go", "EngineImpl.DropSeries")
+	if err != nil {
+		return err
+	}
+	g.StrList("steps_engineDropSeries", es)
+
 	// ---- the store side of the drops (engine/engine_ddl.go, engine/engine.go) ---------------------
 	for _, f := range [][3]string{
 		{"engine/engine_ddl.go", "EngineImpl.DropRetentionPolicy", "steps_engineDropRetentionPolicy"},
